@@ -287,6 +287,9 @@ var preludeAxioms = []string{
 	`(assert (forall ((s Str) (t Str)) (! (= (slen (scat s t)) (+ (slen s) (slen t))) :pattern ((scat s t)))))`,
 	`(assert (forall ((s Str) (t Str) (k Int)) (! (= (sat (scat s t) k) (ite (< k (slen s)) (sat s k) (sat t (- k (slen s))))) :pattern ((sat (scat s t) k)))))`,
 	`(assert (forall ((s Str)) (! (=> (= (slen s) 0) (= s str_empty)) :pattern ((slen s)))))`,
+	// the empty string is the unit of concatenation (strings are identified by their content)
+	`(assert (forall ((s Str)) (! (= (scat s str_empty) s) :pattern ((scat s str_empty)))))`,
+	`(assert (forall ((s Str)) (! (= (scat str_empty s) s) :pattern ((scat str_empty s)))))`,
 	`(assert (forall ((x F64)) (! (= (dec_f64 (enc_f64 x)) x) :pattern ((enc_f64 x)))))`,
 	`(assert (forall ((x Str)) (! (= (dec_str (enc_str x)) x) :pattern ((enc_str x)))))`,
 	`(assert (forall ((x Slice)) (! (= (dec_slice (enc_slice x)) x) :pattern ((enc_slice x)))))`,
